@@ -111,7 +111,15 @@ fn main() {
         Arc::new(rcgen::KeyPair::from_remote(Box::new(PureSigner { public: r.bytes(32), id: 2 })).unwrap()),
     );
     let ca_recipe = gen_ca_cert(&mut r, &sw);
+    // Two issuer objects with the same content: the sequential reference uses one, the threads
+    // share the other, so that the threads make the *first* use of their shared object (lazy
+    // initialisation inside a Certificate would otherwise be warmed up by the reference pass).
+    let issuer_ref = ca_recipe.build().self_signed(&key).expect("issuer");
     let issuer = Arc::new(ca_recipe.build().self_signed(&key).expect("issuer"));
+    if issuer_ref.der() != issuer.der() {
+        println!("VIOLATION c15-output-differs two constructions of the issuer differ (deterministic signer)");
+        std::process::exit(1);
+    }
     let issuer_der = issuer.der().to_vec();
     let issuer_params = issuer.params().clone();
     // the same small set of operations for every thread, in thread-specific order
@@ -147,7 +155,7 @@ fn main() {
             c
         }),
     ];
-    let reference: Vec<(String, Vec<u8>, Vec<u8>, bool)> = ops.iter().map(|op| run_op(op, &key, &subject, &issuer)).collect();
+    let reference: Vec<(String, Vec<u8>, Vec<u8>, bool)> = ops.iter().map(|op| run_op(op, &key, &subject, &issuer_ref)).collect();
     for (i, rf) in reference.iter().enumerate() {
         if !rf.3 {
             println!("VIOLATION c15-params-altered sequential op {i}");
